@@ -224,6 +224,9 @@ func findFeatureForLang(table *font.Layout, scriptIndex, languageIndex int, feat
 
 	l := table.Scripts[scriptIndex].GetLangSys(uint16(languageIndex))
 	for _, fIndex := range l.FeatureIndices {
+		if int(fIndex) >= len(table.Features) { // invalid font
+			continue
+		}
 		if featureTag == table.Features[fIndex].Tag {
 			return fIndex
 		}
